@@ -1089,3 +1089,15 @@ def task_order(prog, rep):
             rep.ok('R9f', k, where=c.where(), fn=fn.name,
                    detail='task handles are pushed to a Vec and awaited in submission order; no shared mutable captures')
     rep.extra['spawn_sites'] = n
+
+
+def fixture():
+    """positive examples: the hash-order rules must fire on the bad_* functions of /verif/fixtures/pos and only there"""
+    import facts
+    import check
+    prog = mir.Program(facts.ensure_fixture())
+    rep = check.Report('C09')
+    an = analyse(prog, rep, {})
+    bad = sorted({f for (f, k, v, d, w, t) in an.sites if v != 'ok'})
+    want = ['@verif_fixture_pos::bad_hash_collect_join', '@verif_fixture_pos::bad_hash_loop_push', '@verif_fixture_pos::bad_sort_with_bool_key']
+    return {'ok': bad == want, 'reported': bad, 'expected': want}
